@@ -96,9 +96,44 @@ pub fn run(run: &mut Run) {
             n
         });
     }
+    // A conversion is a function of its byte alone: every ordered pair of conversions (the first
+    // made, the second judged), for both total conversions and across them -- a sweep in ascending
+    // order never converts b right after a.
+    run.bound("ordered_conversion_pairs", 4 * 65536u64);
+    for (first_kind, which) in [("command_code", "command_code"), ("message_type", "message_type"), ("message_type", "command_code"), ("command_code", "message_type")] {
+        run.seq(&format!("every ordered pair: {}::from(a) then {}::from(b) judged", first_kind, which), 65536, |acc| {
+            for a in 0..=255u8 {
+                for b in 0..=255u8 {
+                    let _ = judge(first_kind, a);
+                    let (_, v) = judge(which, b);
+                    acc.evals += 1;
+                    acc.trans += 2;
+                    acc.validated += 1;
+                    if let Some(d) = v {
+                        if first_kind == which {
+                            acc.violation(1, "pair", format!("after {}::from({:#04x}): {}", first_kind, a, d), || json!({"prop": "C19", "check": which, "first": a, "byte": b}));
+                        } else {
+                            acc.violation(1, "pair", format!("after {}::from({:#04x}): {}", first_kind, a, d), || json!({"prop": "C19", "check": which, "byte": b}));
+                        }
+                    }
+                }
+                acc.state(crate::engine::fp_bytes(0x19A + which.len() as u64 + 3 * first_kind.len() as u64, &[a]));
+            }
+            acc.outcome(&format!("pairs.{}-then-{}", first_kind, which));
+            65536
+        });
+    }
 }
 
 pub fn replay(case: &Value) -> Result<ReplayOut, String> {
+    if let Some(first) = case["first"].as_u64() {
+        // an ordered pair: the first conversion is made, the second judged
+        let which = get_str(case, "check")?.to_string();
+        let _ = judge(&which, first as u8);
+        let b = get_u64(case, "byte")? as u8;
+        let (observed, v) = judge(&which, b);
+        return Ok(ReplayOut { violations: v.into_iter().collect(), observed });
+    }
     let which = get_str(case, "check")?.to_string();
     let b = get_u64(case, "byte")? as u8;
     let (observed, v) = judge(&which, b);
